@@ -19,9 +19,9 @@ import (
 func init() {
 	Register(&Check{
 		Spec: core.Spec{ID: "C26", Level: "exploration",
-			Rule:        "case = one engine with BloomFalsePositiveRate p in {0.3, 0.1, 0.01, 0.001, 1e-4} ingesting rows built to carry a chosen number of distinct tokens (1 .. 50 000 quick, .. 300 000 thorough, plus volume cases (quick: one of 900 000 distinct tokens at 1e-4; thorough: one in 40, 600 000 - 2 500 000 at 0.001 / 1e-4) in one file, flushed at once or merged from three files; few distinct field names with many tokens, the realistic skew), flushed as one or several blocks and in some cases merged. Every fourth case has two engine configurations with different rates sharing the store (one writes, the other merges; blocks that are rebuilt and blocks that are copied end up side by side), and each filter is then probed against the rate its own metadata records, which must be one of the two configured rates. Every filter (field, token, field:token; block level and file level) is read back through ReadFileMetadata / ReadDataBlockBloomFilters, its distinct entry count n measured with the reference walker, and probed with N = max(2e5, 200/p) (cap 2e7) strings that were never inserted (disjoint alphabet). Oracle: observed rate <= 3p + 6*sqrt(3p(1-3p)/N) (3 = the maintainers' documented tolerance, 6 sigma = probe sampling error). evaluations = filters probed; non-trivial = filter with n >= 50; distinct = distinct (n, p, level, kind)",
+			Rule:        "case = one engine with BloomFalsePositiveRate p in {0.3, 0.1, 0.01, 0.001, 1e-4} ingesting rows built to carry a chosen number of distinct tokens (1 .. 50 000 quick, .. 300 000 thorough, plus volume cases (quick: one of 900 000 distinct tokens at 1e-4; thorough: one in 40, 600 000 - 2 500 000 at 0.001 / 1e-4) in one file, flushed at once or merged from three files; few distinct field names with many tokens, the realistic skew), flushed as one or several blocks and in some cases merged. Every fourth case has two engine configurations with different rates sharing the store (one writes, the other merges; blocks that are rebuilt and blocks that are copied end up side by side), and each filter is then probed against the rate its own metadata records, which must be one of the two configured rates. Every filter (field, token, field:token; block level and file level) is read back through ReadFileMetadata / ReadDataBlockBloomFilters, its distinct entry count n measured with the reference walker, and probed with N = max(2e5, 200/p) (cap 2e7) strings that were never inserted (disjoint alphabet). Every fifth case puts each text under 2, 4 or 8 fields, so that the field, token and field:token filters of one block hold very different numbers of entries. Oracle: observed rate <= 3p + 6*sqrt(3p(1-3p)/N) (3 = the maintainers' documented tolerance, 6 sigma = probe sampling error). evaluations = filters probed; non-trivial = filter with n >= 50; distinct = distinct (n, p, level, kind)",
 			Assumptions: []string{"tolerance 3x the configured rate as pinned by TestFalsePositiveRateWithinBudget", "probe strings start with a byte (0x01) no generator emits"},
-			Floors:      map[string]int64{"filters_probed": 60, "filters_n_ge_50": 20, "probes": 5000000, "volume_cases": 1, "two_engine_cases": 3}},
+			Floors:      map[string]int64{"filters_probed": 60, "filters_n_ge_50": 20, "probes": 5000000, "volume_cases": 1, "two_engine_cases": 3, "cases_with_text_under_several_fields": 3}},
 		Cases: func(t string) int { return nQueries(t, 24, 320) },
 		Run:   runC26,
 	})
@@ -144,6 +144,14 @@ func runC26(rc *RunCtx, i int) {
 		}
 		mergeEngine = mi
 	}
+	copies := 1
+	if i%5 == 3 && !volumeCase {
+		copies = core.Pick(r, []int{2, 4, 8})
+		if n > 20000 {
+			n = 20000
+		}
+		rc.Res.Count("cases_with_text_under_several_fields", 1)
+	}
 	// rows: up to 50 tokens per row, n distinct tokens in total, split over blocksWanted flushes
 	perRow := 50
 	tokenID := 0
@@ -178,6 +186,12 @@ func runC26(rc *RunCtx, i int) {
 			share -= k
 			vid++
 			row := map[string]any{"_vid": fmt.Sprintf("v%s_%d", caseID, vid), "t": sb.String()}
+			// the same text under several fields: the three filter kinds then hold very different
+			// numbers of entries (pairs = copies x tokens), so a filter sized from another
+			// kind's count shows
+			for c := 1; c < copies; c++ {
+				row[fmt.Sprintf("t%d", c)] = row["t"]
+			}
 			if twoEngines {
 				// one partition every file has (its blocks get rebuilt together) and one that
 				// only this file has (its block is copied as it is)
@@ -213,7 +227,7 @@ func runC26(rc *RunCtx, i int) {
 		rc.Violate(i, "scenario-failed", "", err.Error(), nil)
 		return
 	}
-	desc := map[string]any{"case": caseID, "configured_rate": p, "two_engines": twoEngines, "merger_rate": mergerRate, "distinct_tokens_ingested": n, "flushes": blocksWanted, "merged": merged, "partitions_per_flush": parts}
+	desc := map[string]any{"case": caseID, "configured_rate": p, "two_engines": twoEngines, "merger_rate": mergerRate, "distinct_tokens_ingested": n, "flushes": blocksWanted, "merged": merged, "partitions_per_flush": parts, "fields_carrying_each_text": copies}
 	probeOne := func(level, kind string, f *bloom.BloomFilter, entries int, rate float64) bool {
 		if f == nil {
 			rc.Violate(i, "filter-absent", "", level+" "+kind+" filter absent", desc)
